@@ -1,10 +1,10 @@
 """C08 — Each Gibbs block draws from the exact full conditional of the documented model."""
 from pyvc.lib import arrays
-arrays.FLOAT_AS[0] = "real"
+arrays.FLOAT_AS[0] = "float"
 PROPERTY = "C08"
 LEVEL = "other"
 CONTRACT_MODULES = ["contracts.c08"]
-CARRIERS = ["batchie.models.sparse_combo.LegacySparseDrugComboImpl.mcmc_step", "batchie.models.sparse_combo.LegacySparseDrugComboImpl._alpha_step@default", "batchie.models.sparse_combo.LegacySparseDrugComboImpl._prec_W0_step@bounds", "batchie.models.sparse_combo.LegacySparseDrugComboImpl._prec_obs_step@bounds"]
+CARRIERS = ["batchie.models.sparse_combo.LegacySparseDrugComboImpl.mcmc_step", "batchie.models.sparse_combo.LegacySparseDrugComboImpl._alpha_step@default", "batchie.models.sparse_combo.LegacySparseDrugComboImpl._prec_W0_step@bounds", "batchie.models.sparse_combo.LegacySparseDrugComboImpl._prec_obs_step@bounds", "batchie.models.sparse_combo.LegacySparseDrugComboImpl._W0_step@cache", "batchie.models.sparse_combo.LegacySparseDrugComboImpl._V0_step@cache"]
 NATIVE = "c08.py"
 EXPLANATION = (
     "The central claim - each update is DRAWN FROM the full conditional - is a statement about probability distributions of "
@@ -20,7 +20,11 @@ EXPLANATION = (
     "prior shape + half the count and whose scale is 1/(prior rate + half the sum of squares (of the intercepts resp. of "
     "observation minus fitted value) + 1e-3) - the parameters of the conjugate full conditional (sum of squares >= 0 by an SMT "
     "induction lemma) - and the stored precision is clipped into [1/sqrt(1+n_obs), 1e6]; without data the observation precision "
-    "is drawn from its prior. That these PARAMETERS make the draw a sample of the full conditional is the bounded harness's "
+    "is drawn from its prior; _W0_step and _V0_step (loop invariants over the samples resp. treatments, cline_idxs / dd1_idxs / dd2_idxs "
+    "as 'exactly the rows of that sample / with that treatment in that position, without repetition'): after the block, for EVERY row "
+    "the cached fitted value minus the row's own intercept(s) is what it was before - the cache moves by exactly the change of the "
+    "parameters it depends on (for V0 under the explicit precondition that no row has the same treatment in both positions, "
+    "which numpy's once-per-index `+=` needs). That these PARAMETERS make the draw a sample of the full conditional is the bounded harness's "
     "job, as are all vector-valued blocks. Level 'other'.")
 TRUSTED = ["pyvc symbolic executor; z3 5.1", "reals for floats; sqrt as an uninterpreted function with sqrt(x)>=1 for x>=1; x**2 as an opaque non-negative square", "np.random.gamma/normal (global): any value of the support, parameters logged", "block methods as stubs inside mcmc_step (only 'is called and returns' is used)",
            "native oracle: full conditionals derived from the model definition in the harness docstring"]
